@@ -1102,7 +1102,13 @@ def optimize_random_greedy_track_flops(
 
     # create initial processor and simplify only once
     cp0 = ContractionProcessor(inputs, output, size_dict, track_flops=True)
+    batch_factor = 1
     if simplify:
+        # indices that appear on every term are dropped by the simplification
+        # but still contribute a constant factor to the cost of every step
+        for ix, ix_nodes in cp0.edges.items():
+            if len(ix_nodes) >= len(cp0.nodes):
+                batch_factor *= cp0.sizes[ix]
         cp0.simplify()
 
     if isinstance(costmod, float):
@@ -1152,7 +1158,7 @@ def optimize_random_greedy_track_flops(
             cp0.flops_limit = best_flops
 
     # for consistency with cotengrust / easier comparison
-    best_flops = math.log10(best_flops)
+    best_flops = math.log10(batch_factor * best_flops)
 
     if not use_ssa:
         best_path = ssa_to_linear(best_path, len(inputs))
